@@ -21,7 +21,7 @@ DynAt(t) == {TDyn} \cup
     [] t.k = "object" -> UNION {{[t EXCEPT !.as[n] = x] : x \in DynAt(t.as[n])} : n \in DOMAIN t.as}
     [] OTHER -> {}
 Targets(t) == FixedTargets \cup {t} \cup DynAt(t)
-TupSrc == {TTup(<<TList(TNum), TList(TNum)>>), TTup(<<TObj([a |-> TStr])>>), TTup(<<TObj([a |-> TNum]), TObj([a |-> TNum])>>), TTup(<<TTup(<<TNum, TStr>>)>>),
+TupSrc == {TMap(TList(TNum)), TMap(TObj([a |-> TNum])), TList(TMap(TNum)), TTup(<<TList(TNum), TList(TNum)>>), TTup(<<TObj([a |-> TStr])>>), TTup(<<TObj([a |-> TNum]), TObj([a |-> TNum])>>), TTup(<<TTup(<<TNum, TStr>>)>>),
            \* tuples / objects whose members mix a collection kind with its structural look-alike (lists with tuples, maps with objects)
            TTup(<<TList(TStr), TTup(<<TStr, TStr>>)>>), TTup(<<TTup(<<TNum>>), TList(TNum)>>), TTup(<<TMap(TStr), TObj([a |-> TStr])>>),
            TObj([a |-> TMap(TNum), b |-> TObj([a |-> TNum])]),
